@@ -338,8 +338,7 @@ def eval_builder(ctx, group, items, canary=False):
                 what = 'builder call raised %s' % exc
             ctx.violate(group, case, what)
         elif not uo:
-            ctx.violate(group, case, 'build() of a merged builder yields a graph with duplicate node uids',
-                        finding_key='C20-merge-duplicate-uids')
+            ctx.violate(group, case, 'build() yields a graph with duplicate node uids')
         if not ag:
             ctx.disagree(group, case, 'model and OptGraphBuilder differ')
     return meta
@@ -352,23 +351,21 @@ EPILOGUE = [['Build', 0], ['Build', 2]]
 def run_builder(ctx):
     full = ctx.tier == 'thorough'
     alpha = alphabet(full)
-    max_len = ctx.pick(3, 4)
     items = []
-    # exhaustive: all sequences up to length 2 (quick) / 3 (thorough) over the whole alphabet with
-    # a Build epilogue; sequences of the maximal length over the core alphabet
-    core = alpha[:ctx.pick(13, 17)]
-    for n in range(1, max_len):
-        for seq in itertools.product(alpha, repeat=n):
+    # exhaustive: every sequence of length 1..2 over the whole alphabet; length 3 over its first 13
+    # (quick) / 24 (thorough) calls; thorough: length 4 over its first 10 calls.  Every sequence
+    # is followed by the build epilogue.
+    scopes = [(1, len(alpha)), (2, len(alpha)), (3, ctx.pick(13, 24))] + ([(4, 10)] if full else [])
+    for n, width in scopes:
+        for seq in itertools.product(alpha[:width], repeat=n):
             items.append((2, list(seq) + EPILOGUE))
-    for seq in itertools.product(core, repeat=max_len):
-        items.append((2, list(seq) + EPILOGUE))
     n_exh = len(items)
     eval_builder(ctx, 'builder-exhaustive', items, canary=True)
     ctx.set_exhaustive('builder-exhaustive', True)
     # random longer sequences
     r = ctx.rng
     items = []
-    for _ in range(ctx.budget(600, 12000)):
+    for _ in range(ctx.budget(600, 8000)):
         nb = r.choice([1, 2, 2, 3])
         n = r.randrange(4, 14)
         calls = [random_call(r, nb) for _ in range(n)]
@@ -636,7 +633,10 @@ def observe_population(case):
             generated.append(to_tree(g, types))
             return g
     gp = GraphGenerationParams(rules_for_constraint=make_rules(v, types), node_factory=nf)
-    gp.random_graph_factory = Factory(gp.verifier)
+    # 'gen_v': the factory verifies with another rule set than the population generator, so that
+    # the generator's own verifier call matters
+    gen_verifier = GraphVerifier(make_rules(case['gen_v'], types)) if case.get('gen_v') else gp.verifier
+    gp.random_graph_factory = Factory(gen_verifier)
     req = GraphRequirements(max_depth=md, min_arity=mn, max_arity=mx)
     pyrandom.seed(seed)
     try:
@@ -750,6 +750,8 @@ def run_generators(ctx):
                       'seed': r.randrange(10 ** 6), 'pop_size': r.choice([0, 1, 2, 3, 3, 5, 8, 12])})
         if r.random() < 0.2:
             cases[-1]['p_none'] = 0.3
+        if r.random() < 0.3:
+            cases[-1]['gen_v'] = ['VAll']
     # more graphs requested than exist: the attempt limit ends the loop with a short population
     for nt, ps in [(1, 2), (2, 3), (3, 5)][:ctx.pick(2, 3)]:
         cases.append({'md': 1, 'mn': 1, 'mx': 1, 'nt': nt, 'v': ['VAll'], 'seed': r.randrange(10 ** 6), 'pop_size': ps})
@@ -772,13 +774,21 @@ def run(ctx):
 
 
 def replay(ctx, payload):
-    v = payload.get('violation') or payload.get('first_disagreement') or payload
-    case = v.get('case') if isinstance(v, dict) else None
-    if not case:
-        return
-    if case.get('kind') == 'builder':
-        eval_builder(ctx, 'replay', [(case['k'], case['calls'])])
-    elif case.get('kind') == 'factory':
-        eval_factory(ctx, 'replay', [{k: v for k, v in case.items() if k != 'kind'}])
-    elif case.get('kind') == 'population':
-        eval_population(ctx, 'replay', [{k: v for k, v in case.items() if k != 'kind'}])
+    """payload: a replay file written by run_check (violation / first_disagreement with a case) or a
+    corpus file {"cases": [case, ...]}"""
+    if isinstance(payload, dict) and 'cases' in payload:
+        cases = payload['cases']
+    else:
+        v = payload.get('violation') or payload.get('first_disagreement') or payload
+        case = v.get('case') if isinstance(v, dict) else None
+        cases = [case] if case else []
+    strip = lambda c: {k: x for k, x in c.items() if k not in ('kind', 'name')}
+    b = [(c['k'], c['calls']) for c in cases if c.get('kind') == 'builder']
+    f = [strip(c) for c in cases if c.get('kind') == 'factory']
+    p = [strip(c) for c in cases if c.get('kind') == 'population']
+    if b:
+        eval_builder(ctx, 'replay', b)
+    if f:
+        eval_factory(ctx, 'replay', f)
+    if p:
+        eval_population(ctx, 'replay', p)
